@@ -40,8 +40,9 @@ ALLOWED = {
 
 ASSUMPTIONS = [
   "A-PY/A-SMT as in C12; heap encoding: one SMT array per instance field, immutable kind per object, `is` = reference equality",
-  "A-ITER: `x in list(element)` is read as `parent(x) is element` (contract of ContentElement.__iter__: yields exactly the "
-  "children in link order; justified by W1 with the idx ghost; the generator itself is only checked in the bounded tier)",
+  "A-ITER: `x in list(element)` is read as `parent(x) is element`: the contract of ContentElement.__iter__ (its i-th item is the "
+  "child with ghost index i, i = 0..count-1) is proved by the `__iter__` harness; the step from that to set membership uses W1 "
+  "(index range, injectivity) and is argued in DESIGN 2.3, not machine checked",
   "A-WFREC: in a heap satisfying W2 the function root(x) (follow parent pointers) exists; it is assumed for the pre-state only "
   "and used to name the subtree of a root",
   "opaque fields (_styles, _sets, _begin, _end, _space, _lang, _text) are not interpreted in the proof tier: value validity is bounded-only",
@@ -224,6 +225,67 @@ def h_root(cls):
     s.unchanged("frame/heap-untouched")
   return Harness(f"root[{label}]", run, [M + "ContentElement.root"], None, {},
                  "root() terminates and returns the parentless ancestor-or-self (loop invariant + decreases rank)")
+
+
+def h_len(cls):
+  from pyvc import loops
+
+  def run(ctx):
+    s = Setup(ctx, cls)
+    S = z3.Select
+    me, g0, h0 = s.self_.term, s.g0, s.h0
+
+    def inv(loc):
+      ch, cnt = loc["child"], loc["count"]
+      c = ch.term if isinstance(ch, SymRef) else NULL
+      n = cnt.term if isinstance(cnt, core.SymInt) else z3.IntVal(cnt)
+      return SymBool(z3.If(c == NULL, n == S(g0.cnt, me), z3.And(S(h0.arrays["_parent"], c) == me, S(g0.idx, c) == n)))
+
+    def havoc(name, old):
+      return SymRef(z3.FreshConst(Ref, "cur")) if name == "child" else core.SymInt(z3.FreshConst(z3.IntSort(), "count"))
+
+    def measure(loc):
+      n = loc["count"]
+      return core.SymInt(S(g0.cnt, me) - (n.term if isinstance(n, core.SymInt) else z3.IntVal(n)))
+
+    fn = loops.cut(M + "ContentElement.__len__", {0: loops.LoopSpec(inv, ["child", "count"], havoc, measure)})
+    st, r = core.call_real(fn, s.self_, allowed=())
+    prove(r == core.SymInt(S(g0.cnt, me)), "post/len==ghost-count")
+    s.unchanged("frame/heap-untouched")
+  return Harness("__len__[ContentElement]", run, [M + "ContentElement.__len__"], None, {},
+                 "len(element) terminates and equals the number of linked children (loop invariant over the ghost index)")
+
+
+def h_iter(cls):
+  from pyvc import loops
+
+  def run(ctx):
+    s = Setup(ctx, cls)
+    S = z3.Select
+    me, g0, h0 = s.self_.term, s.g0, s.h0
+
+    def pos(loc):
+      i = loc["i"]
+      return i.term if isinstance(i, core.SymInt) else z3.IntVal(i)
+
+    def inv(loc):
+      c, i = loc["child"].term, pos(loc)
+      # before the i-th iteration (0-based) the cursor is the child with index i, or null when i == count
+      return SymBool(z3.And(i >= 0, z3.If(c == NULL, i == S(g0.cnt, me), z3.And(S(h0.arrays["_parent"], c) == me, S(g0.idx, c) == i))))
+
+    def on_yield(v, loc):
+      i = pos(loc)
+      return SymBool(z3.And(v.term != NULL, S(h0.arrays["_parent"], v.term) == me, S(g0.idx, v.term) == i, i < S(g0.cnt, me)))
+
+    spec = loops.LoopSpec(inv, ["child"], lambda n, old: SymRef(z3.FreshConst(Ref, "cur")),
+                          lambda loc: core.SymInt(S(g0.cnt, me) - pos(loc)), on_yield=on_yield,
+                          ghosts={"i": (0, lambda: core.SymInt(z3.FreshConst(z3.IntSort(), "i")), lambda v: v + 1)})
+    fn = loops.cut(M + "ContentElement.__iter__", {0: spec})
+    st, r = core.call_real(fn, s.self_, allowed=())
+    s.unchanged("frame/heap-untouched")
+  return Harness("__iter__[ContentElement]", run, [M + "ContentElement.__iter__"], None, {},
+                 "iteration yields, as its i-th item, the child with ghost index i, for i = 0 .. count-1, and then stops: with index range "
+                 "and injectivity (W1) the items are exactly the elements whose parent is the receiver, in link order (discharges A-ITER)")
 
 
 def h_push_child(cls):
@@ -430,6 +492,8 @@ def all_harnesses(tier):
   for cls in ELEMENT_CLASSES:          # every class overrides push_child and reaches the base implementation through super()
     hs.append(h_push_child(cls))
   hs.append(h_root(ELEMENT_CLASSES))
+  hs.append(h_len(ELEMENT_CLASSES))
+  hs.append(h_iter(ELEMENT_CLASSES))
   for label, cs in implementations("remove_child"):
     hs.append(h_remove_child(cs if len(cs) > 1 else cs[0], label))
   for label, cs in implementations("remove"):
